@@ -76,14 +76,14 @@ def refify(tree):
     return tree
 
 
-def parse_tree(ctx, formula, models=None):
+def parse_tree(ctx, formula, models=None, world=None):
     """Nested tuple of the tree FormulaParser.parse builds for the formula: ('op', text, operands...), reference texts,
     literal values; ('raise', class) when parsing or reading the tree fails."""
     pm = ctx.mod('parser')
     am = ctx.mod('ast_nodes')
     models = dict(models if models is not None else operator_models(ctx))
     models.setdefault(AN + 'RangeNode.eval', lambda self_, context: ('ref', self_.get('token').get('tvalue')))
-    world = World()
+    world = world if world is not None else World()
     it = Interp(ctx.a, pm, {'p': Rec(cls='pkg:parser:FormulaParser'), 'f': formula}, inline_pkg=True, world=world)
     out = it.run([ast.parse('return p.parse(f, {})').body[0]])
     if out.end == 'raise':
@@ -98,11 +98,12 @@ def parse_tree(ctx, formula, models=None):
     return _norm(res.value)
 
 
-def tokens_of(ctx, formula):
+def tokens_of(ctx, formula, world=None, tokenize_range=False):
     """[(text, type, sub-type)] of FormulaParser.tokenize(formula)."""
     pm = ctx.mod('parser')
-    it = Interp(ctx.a, pm, {'p': Rec(cls='pkg:parser:FormulaParser'), 'f': formula}, inline_pkg=True)
-    out = it.run([ast.parse('return p.tokenize(f)').body[0]])
+    it = Interp(ctx.a, pm, {'p': Rec(cls='pkg:parser:FormulaParser'), 'f': formula, 'tr': tokenize_range}, inline_pkg=True,
+                world=world if world is not None else World())
+    out = it.run([ast.parse('return p.tokenize(f, tr) if tr else p.tokenize(f)').body[0]])
     if out.end == 'raise':
         return ('raise', out.value.ref.rpartition(':')[2] if isinstance(out.value, Ref) else repr(out.value))
     if out.end != 'return' or not isinstance(out.value, list):
